@@ -805,6 +805,33 @@ def judgeCamionx : P Verdict := do
       return .ok s!"camion:irregular:{t}"
     return .ok s!"camion:large:{t}"
 
+open P in
+/-- `camion test <wantsub> M => ok yes|no [S…|-]` (the command-line tool's form of the signedness test) -/
+def judgeCamionTest : P Verdict := do
+  let fn ← tok
+  let wantsub ← nat
+  let (m, n, M) ← denseMat
+  expect "=>"
+  let status ← tok
+  if fn != "test" then return .skip "camion:sign"
+  if !isTernary M then return .skip "camion:nonternary"
+  if status != "ok" then return .fail "camion" s!"status {status}"
+  let t ← tok
+  let sub ← submat
+  let tYes := t == "yes"
+  if wantsub == 1 then
+    match sub with
+    | some (rs, cs) =>
+      if tYes then return .fail "camion:violator" "violator returned for a Camion-signed matrix"
+      if !camionViolatorOk m n M rs cs then return .fail "camion:violator" s!"rows {rs} cols {cs} is not a square submatrix with two nonzeros per line and det ±2"
+    | none => if !tYes then return .fail "camion:violator" "not Camion-signed, violator requested, none returned"
+  if m ≤ 6 && n ≤ 6 then
+    let tu := isTU m n M
+    if tu && !tYes then return .fail "camion:tu-implies-signed" "totally unimodular matrix reported as not Camion-signed"
+    if isRegular n (support M) && tYes && !tu then return .fail "camion:regular-signed-tu" "regular support, Camion-signed, yet not TU"
+    return .ok s!"camion:test:{t}"
+  return .ok s!"camion:test:large:{t}"
+
 /-! ### balanced -/
 
 open P in
@@ -1434,6 +1461,7 @@ def judgeLine (line : String) : Verdict :=
       | "printsub" => runP judgePrintsub toks
       | "sp" => runP judgeSp toks
       | "camionx" => runP judgeCamionx toks
+      | "camion" => runP judgeCamionTest toks
       | "balanced" => runP judgeBalanced toks
       | "equimod" => runP judgeEquimod toks
       | "graphic" => runP judgeGraphic toks
